@@ -18,16 +18,25 @@ import (
 	"math/rand"
 	"os"
 	"path/filepath"
+	"reflect"
 	"strconv"
 	"strings"
 	"testing"
+	"time"
+	"unsafe"
 
+	ethcommon "github.com/ethereum/go-ethereum/common"
 	ethcrypto "github.com/ethereum/go-ethereum/crypto"
 	"go.uber.org/zap"
+	"google.golang.org/grpc"
 	"google.golang.org/grpc/status"
 	"google.golang.org/protobuf/proto"
 
+	"github.com/alephium/wormhole-fork/node/pkg/common"
+	"github.com/alephium/wormhole-fork/node/pkg/db"
+	gossipv1 "github.com/alephium/wormhole-fork/node/pkg/proto/gossip/v1"
 	nodev1 "github.com/alephium/wormhole-fork/node/pkg/proto/node/v1"
+	"github.com/alephium/wormhole-fork/node/pkg/supervisor"
 	"github.com/alephium/wormhole-fork/node/pkg/vaa"
 )
 
@@ -112,21 +121,30 @@ type c15result struct {
 	digs [][]byte
 }
 
-// c15call runs the real handler; everything pushed to the injection channel is collected.
-func c15call(s *nodePrivilegedService, ch chan *vaa.VAA, req *nodev1.InjectGovernanceVAARequest) (r c15result) {
+func c15drain(ch chan *vaa.VAA, skip int) (out []*vaa.VAA) {
+	for {
+		select {
+		case v := <-ch:
+			if skip > 0 {
+				skip--
+				continue
+			}
+			out = append(out, v)
+		default:
+			return
+		}
+	}
+}
+
+// c15call runs the real handler in-process (a panic is recovered and reported); everything it pushed to the injection
+// channel - after the `prefill` VAAs that were already waiting there - is collected.
+func c15call(s *nodePrivilegedService, ch chan *vaa.VAA, prefill int, req *nodev1.InjectGovernanceVAARequest) (r c15result) {
 	defer func() {
 		if e := recover(); e != nil {
 			r.res = "panic"
 			r.msg = fmt.Sprint(e)
 		}
-		for {
-			select {
-			case v := <-ch:
-				r.sent = append(r.sent, v)
-			default:
-				return
-			}
-		}
+		r.sent = c15drain(ch, prefill)
 	}()
 	resp, err := s.InjectGovernanceVAA(context.Background(), req)
 	if err != nil {
@@ -156,18 +174,207 @@ func (r c15result) fingerprint() string {
 	return hex.EncodeToString(ethcrypto.Keccak256([]byte(sb.String())))
 }
 
+// ---- service instances with different ambient node state
+
+// c15gstMode: what the node's guardian set state looks like when the request arrives
+const (
+	c15gstNil   = iota // no GuardianSetState at all
+	c15gstEmpty        // state present, no set known yet
+	c15gstZero         // active set has index 0
+	c15gstEqual        // active set index == the request's current_set_index
+	c15gstHigh         // active set index > the request's current_set_index
+)
+
+// c15node is one guardian node's admin service. Either built by the production constructor adminServiceRunnable, run
+// under a supervisor and called over its unix socket like `guardiand admin` does (client != nil), or an in-process
+// service value (direct != nil) whose ambient-state fields are filled by type.
+type c15node struct {
+	label   string
+	mode    int
+	gst     *common.GuardianSetState
+	ch      chan *vaa.VAA
+	prefill int
+	direct  *nodePrivilegedService
+	client  nodev1.NodePrivilegedServiceClient
+	conn    *grpc.ClientConn
+	cancel  context.CancelFunc
+}
+
+func c15marker(i int) *vaa.VAA {
+	return &vaa.VAA{Version: 1, Sequence: uint64(1000 + i), Payload: []byte{0xee}}
+}
+
+func (n *c15node) prepare(req *nodev1.InjectGovernanceVAARequest) {
+	if n.gst != nil {
+		switch n.mode {
+		case c15gstZero:
+			n.gst.Set(&common.GuardianSet{Index: 0})
+		case c15gstEqual:
+			n.gst.Set(&common.GuardianSet{Index: req.CurrentSetIndex})
+		case c15gstHigh:
+			idx := req.CurrentSetIndex
+			if idx < 1<<32-1 {
+				idx += 1 + uint32(uint64(idx)*7%5)
+				if idx < req.CurrentSetIndex { // wrapped
+					idx = 1<<32 - 1
+				}
+			}
+			n.gst.Set(&common.GuardianSet{Index: idx, Keys: []ethcommon.Address{{1}, {2}}})
+		}
+	}
+	c15drain(n.ch, 0)
+	for i := 0; i < n.prefill; i++ {
+		n.ch <- c15marker(i)
+	}
+}
+
+func (n *c15node) call(req *nodev1.InjectGovernanceVAARequest) (r c15result) {
+	n.prepare(req)
+	if n.direct != nil {
+		return c15call(n.direct, n.ch, n.prefill, req)
+	}
+	ctx, cancel := context.WithTimeout(context.Background(), 60*time.Second)
+	defer cancel()
+	resp, err := n.client.InjectGovernanceVAA(ctx, req)
+	r.sent = c15drain(n.ch, n.prefill)
+	if err != nil {
+		st := status.Convert(err)
+		r.res, r.code, r.msg = "err", uint32(st.Code()), st.Message()
+		return
+	}
+	r.res = "ok"
+	r.digs = resp.Digests
+	return
+}
+
+func (n *c15node) stop() {
+	if n.conn != nil {
+		n.conn.Close()
+	}
+	if n.cancel != nil {
+		n.cancel()
+	}
+}
+
+// c15fillState sets, by TYPE, every field of the service value that can carry ambient node state the known-field
+// literal does not mention (so the harness keeps compiling, and keeps exercising them, when such a field is added).
+func c15fillState(s *nodePrivilegedService, gst *common.GuardianSetState, d *db.Database) {
+	v := reflect.ValueOf(s).Elem()
+	for i := 0; i < v.NumField(); i++ {
+		f := v.Field(i)
+		var val interface{}
+		switch f.Type() {
+		case reflect.TypeOf(gst):
+			val = gst
+		case reflect.TypeOf(d):
+			val = d
+		default:
+			continue
+		}
+		reflect.NewAt(f.Type(), unsafe.Pointer(f.UnsafeAddr())).Elem().Set(reflect.ValueOf(val))
+	}
+}
+
 type c15gen struct {
 	r    *rand.Rand
 	w    *bufio.Writer
 	t    *testing.T
 	n    int
 	dist map[string]int
-	// two service instances with the same configuration (two operators)
+	// several service instances (several operators' nodes) with the same governance configuration
 	cfgChain vaa.ChainID
 	cfgAddr  vaa.Address
-	s1, s2   *nodePrivilegedService
-	ch1, ch2 chan *vaa.VAA
-	prev     []byte // an earlier request (wire form), replayed on the second service only
+	s1       *nodePrivilegedService // the reference instance: known fields only, no ambient state
+	ch1      chan *vaa.VAA
+	nodes    []*c15node
+	prev     []byte // an earlier request (wire form), replayed on the other instances only
+	dir      string
+	dbs      []*db.Database // empty / non-empty stores
+	sockN    int
+	ctorEach int // use the constructor-built instances on every k-th case
+}
+
+func (g *c15gen) openDBs() {
+	for i := 0; i < 2; i++ {
+		d, err := db.Open(filepath.Join(g.dir, fmt.Sprintf("db%d", i)))
+		if err != nil {
+			g.t.Fatalf("c15 harness: db.Open: %v", err)
+		}
+		g.dbs = append(g.dbs, d)
+	}
+	for i := 0; i < 3; i++ {
+		v := &vaa.VAA{Version: 1, GuardianSetIndex: 9, Timestamp: time.Unix(1700000000, 0), Sequence: uint64(i), EmitterChain: 2, TargetChain: 255, Payload: []byte{1, 2, 3},
+			Signatures: []*vaa.Signature{{Index: 0}}}
+		if err := g.dbs[1].StoreSignedVAA(v); err != nil {
+			g.t.Fatalf("c15 harness: StoreSignedVAA: %v", err)
+		}
+	}
+}
+
+// ctorNode builds a node through the production path: adminServiceRunnable -> supervisor -> gRPC over the unix socket.
+func (g *c15gen) ctorNode(label string, mode int, d *db.Database, prefill int) *c15node {
+	n := &c15node{label: label, mode: mode, ch: make(chan *vaa.VAA, 96), prefill: prefill}
+	if mode != c15gstNil {
+		n.gst = common.NewGuardianSetState(nil)
+	}
+	g.sockN++
+	sock := filepath.Join(g.dir, fmt.Sprintf("a%d.sock", g.sockN))
+	run, err := adminServiceRunnable(zap.NewNop(), sock, n.ch, make(chan *gossipv1.SignedVAAWithQuorum, 8),
+		make(chan *gossipv1.ObservationRequest, 8), d, n.gst, g.cfgChain, g.cfgAddr)
+	if err != nil {
+		g.t.Fatalf("c15 harness: adminServiceRunnable: %v", err)
+	}
+	ctx, cancel := context.WithCancel(context.Background())
+	n.cancel = cancel
+	supervisor.New(ctx, zap.NewNop(), func(ctx context.Context) error {
+		if err := supervisor.Run(ctx, "admin", run); err != nil {
+			return err
+		}
+		supervisor.Signal(ctx, supervisor.SignalHealthy)
+		<-ctx.Done()
+		return nil
+	})
+	dctx, dcancel := context.WithTimeout(ctx, 20*time.Second)
+	defer dcancel()
+	conn, err := grpc.DialContext(dctx, "unix:///"+sock, grpc.WithInsecure(), grpc.WithBlock(),
+		grpc.WithDefaultCallOptions(grpc.MaxCallRecvMsgSize(64<<20)))
+	if err != nil {
+		g.t.Fatalf("c15 harness: dial admin socket: %v", err)
+	}
+	n.conn = conn
+	n.client = nodev1.NewNodePrivilegedServiceClient(conn)
+	return n
+}
+
+func (g *c15gen) directNode(label string, mode int, d *db.Database, prefill int) *c15node {
+	n := &c15node{label: label, mode: mode, ch: make(chan *vaa.VAA, 96), prefill: prefill}
+	if mode != c15gstNil {
+		n.gst = common.NewGuardianSetState(nil)
+	}
+	n.direct = &nodePrivilegedService{injectC: n.ch, logger: zap.NewNop(), governanceChainId: g.cfgChain, governanceEmitterAddress: g.cfgAddr}
+	c15fillState(n.direct, n.gst, d)
+	return n
+}
+
+// setup builds the instances for the configuration in g.cfgChain / g.cfgAddr.
+func (g *c15gen) setup() {
+	for _, n := range g.nodes {
+		n.stop()
+	}
+	g.ch1 = make(chan *vaa.VAA, 96)
+	g.s1 = &nodePrivilegedService{injectC: g.ch1, logger: zap.NewNop(), governanceChainId: g.cfgChain, governanceEmitterAddress: g.cfgAddr}
+	g.nodes = []*c15node{
+		// in-process (a panic of the handler is recoverable here), ambient state filled by type
+		g.directNode("direct-gst-high-db-full", c15gstHigh, g.dbs[1], 3),
+		g.directNode("direct-gst-equal", c15gstEqual, g.dbs[0], 0),
+		g.directNode("direct-gst-empty", c15gstEmpty, nil, 1),
+		// production constructor + supervisor + unix-socket gRPC
+		g.ctorNode("ctor-gst-nil", c15gstNil, nil, 0),
+		g.ctorNode("ctor-gst-empty", c15gstEmpty, g.dbs[0], 1),
+		g.ctorNode("ctor-gst-zero", c15gstZero, g.dbs[1], 2),
+		g.ctorNode("ctor-gst-equal", c15gstEqual, g.dbs[0], 5),
+		g.ctorNode("ctor-gst-high", c15gstHigh, g.dbs[1], 0),
+	}
 }
 
 func (g *c15gen) newServices() {
@@ -177,10 +384,22 @@ func (g *c15gen) newServices() {
 		g.cfgAddr = vaa.Address{}
 		g.cfgAddr[31] = 4
 	}
-	g.ch1 = make(chan *vaa.VAA, 64)
-	g.ch2 = make(chan *vaa.VAA, 64)
-	g.s1 = &nodePrivilegedService{injectC: g.ch1, logger: zap.NewNop(), governanceChainId: g.cfgChain, governanceEmitterAddress: g.cfgAddr}
-	g.s2 = &nodePrivilegedService{injectC: g.ch2, logger: zap.NewNop(), governanceChainId: g.cfgChain, governanceEmitterAddress: g.cfgAddr}
+	g.setup()
+}
+
+func c15join(xs []string, sep string) string {
+	if len(xs) == 0 {
+		return "-"
+	}
+	return strings.Join(xs, sep)
+}
+
+func c15canons(vs []*vaa.VAA) string {
+	xs := make([]string, len(vs))
+	for i, v := range vs {
+		xs[i] = c15canon(v)
+	}
+	return c15join(xs, "|")
 }
 
 func (g *c15gen) emit(kind string, req0 *nodev1.InjectGovernanceVAARequest) {
@@ -189,45 +408,61 @@ func (g *c15gen) emit(kind string, req0 *nodev1.InjectGovernanceVAARequest) {
 	if err != nil {
 		g.t.Fatalf("c15 harness generated a request protobuf cannot carry (%s): %v", kind, err)
 	}
-	req := &nodev1.InjectGovernanceVAARequest{}
-	if err := proto.Unmarshal(raw, req); err != nil {
-		g.t.Fatalf("c15 harness: unmarshal: %v", err)
+	fresh := func() *nodev1.InjectGovernanceVAARequest {
+		r := &nodev1.InjectGovernanceVAARequest{}
+		if err := proto.Unmarshal(raw, r); err != nil {
+			g.t.Fatalf("c15 harness: unmarshal: %v", err)
+		}
+		return r
 	}
-	req2 := &nodev1.InjectGovernanceVAARequest{}
-	if err := proto.Unmarshal(raw, req2); err != nil {
-		g.t.Fatalf("c15 harness: unmarshal: %v", err)
-	}
-	if len(req.Messages) > cap(g.ch1) {
+	pristine := fresh() // the handler may write to the request it is given; this copy is what gets recorded
+	if len(pristine.Messages) > 64 {
 		g.t.Fatalf("c15 harness: too many messages")
 	}
 	g.n++
 	g.dist[kind]++
 	id := fmt.Sprintf("%s%d", kind, g.n)
-	r1 := c15call(g.s1, g.ch1, req)
-	// the second operator's node has served something else in between
-	if g.prev != nil && g.n%3 == 0 {
-		other := &nodev1.InjectGovernanceVAARequest{}
-		if err := proto.Unmarshal(g.prev, other); err == nil && len(other.Messages) <= cap(g.ch2) {
-			c15call(g.s2, g.ch2, other)
+	r1 := c15call(g.s1, g.ch1, 0, fresh())
+
+	// the other operators' nodes: different guardian-set state, stores, channel fill levels and histories
+	fp1 := r1.fingerprint()
+	ps := []string{"ref:" + fp1}
+	alt := ""
+	panicked := r1.res == "panic"
+	for _, n := range g.nodes {
+		if n.client != nil && (panicked || (g.ctorEach > 1 && g.n%g.ctorEach != 0)) {
+			continue // a handler panic behind the socket would take the whole process down: already reported in-process
+		}
+		if g.prev != nil && g.n%3 == 0 && n.direct != nil {
+			other := &nodev1.InjectGovernanceVAARequest{}
+			if err := proto.Unmarshal(g.prev, other); err == nil {
+				n.call(other)
+			}
+		}
+		r := n.call(fresh())
+		if r.res == "panic" {
+			panicked = true
+		}
+		fp := r.fingerprint()
+		ps = append(ps, n.label+":"+fp)
+		if fp != fp1 && alt == "" {
+			digs := make([]string, len(r.digs))
+			for i, d := range r.digs {
+				digs[i] = c15hex(d)
+			}
+			alt = fmt.Sprintf(" alt=%s altres=%s altcode=%d altmsg=%s altsent=%s altdig=%s", n.label, r.res, r.code, c15str(r.msg), c15canons(r.sent), c15join(digs, ","))
 		}
 	}
-	r2 := c15call(g.s2, g.ch2, req2)
 	if len(raw) < 4096 {
 		g.prev = raw
 	}
 
-	msgs := make([]string, len(req.Messages))
-	for i, m := range req.Messages {
+	msgs := make([]string, len(pristine.Messages))
+	for i, m := range pristine.Messages {
 		msgs[i] = c15msg(m)
 	}
-	ms := strings.Join(msgs, ";")
-	if ms == "" {
-		ms = "-"
-	}
-	sent := make([]string, len(r1.sent))
 	kk := make([]string, len(r1.sent))
 	for i, v := range r1.sent {
-		sent[i] = c15canon(v)
 		wire, err := v.Marshal()
 		if err != nil {
 			g.t.Fatalf("c15 harness: Marshal: %v", err)
@@ -238,15 +473,9 @@ func (g *c15gen) emit(kind string, req0 *nodev1.InjectGovernanceVAARequest) {
 	for i, d := range r1.digs {
 		digs[i] = c15hex(d)
 	}
-	join := func(xs []string, sep string) string {
-		if len(xs) == 0 {
-			return "-"
-		}
-		return strings.Join(xs, sep)
-	}
-	fmt.Fprintf(g.w, "inj %s cc=%d ce=%s gsi=%d ts=%d msgs=%s res=%s code=%d msg=%s sent=%s dig=%s kk=%s p1=%s p2=%s\n",
-		id, uint16(g.cfgChain), c15hex(g.cfgAddr[:]), req.CurrentSetIndex, req.Timestamp, ms,
-		r1.res, r1.code, c15str(r1.msg), join(sent, "|"), join(digs, ","), join(kk, ","), r1.fingerprint(), r2.fingerprint())
+	fmt.Fprintf(g.w, "inj %s cc=%d ce=%s gsi=%d ts=%d msgs=%s res=%s code=%d msg=%s sent=%s dig=%s kk=%s ps=%s%s\n",
+		id, uint16(g.cfgChain), c15hex(g.cfgAddr[:]), pristine.CurrentSetIndex, pristine.Timestamp, c15join(msgs, ";"),
+		r1.res, r1.code, c15str(r1.msg), c15canons(r1.sent), c15join(digs, ","), c15join(kk, ","), strings.Join(ps, ","), alt)
 }
 
 var c15b32 = []uint32{0, 1, 2, 255, 256, 65535, 65536, 1<<31 - 1, 1 << 31, 1<<32 - 2, 1<<32 - 1}
@@ -673,10 +902,7 @@ func (g *c15gen) replay(path string) {
 		g.cfgChain = vaa.ChainID(c15u(g.t, kv["cc"], 16))
 		g.cfgAddr = vaa.Address{}
 		copy(g.cfgAddr[:], []byte(c15unhex(g.t, kv["ce"])))
-		g.ch1 = make(chan *vaa.VAA, 64)
-		g.ch2 = make(chan *vaa.VAA, 64)
-		g.s1 = &nodePrivilegedService{injectC: g.ch1, logger: zap.NewNop(), governanceChainId: g.cfgChain, governanceEmitterAddress: g.cfgAddr}
-		g.s2 = &nodePrivilegedService{injectC: g.ch2, logger: zap.NewNop(), governanceChainId: g.cfgChain, governanceEmitterAddress: g.cfgAddr}
+		g.setup()
 		req := &nodev1.InjectGovernanceVAARequest{CurrentSetIndex: uint32(c15u(g.t, kv["gsi"], 32)), Timestamp: uint32(c15u(g.t, kv["ts"], 32))}
 		if kv["msgs"] != "-" {
 			for _, ms := range strings.Split(kv["msgs"], ";") {
@@ -685,6 +911,115 @@ func (g *c15gen) replay(path string) {
 		}
 		g.emit("replay", req)
 	}
+}
+
+// shortFields: for every hex-carrying field, decoded lengths 0,1,2,3 with each leading-byte class; for the refund
+// address (whose first byte is an Alephium address type) additionally every single byte 00..ff.
+func (g *c15gen) shortFields() {
+	lead := []byte{0x00, 0x01, 0x02, 0x03, 0x04, 0x05, 0x7f, 0x80, 0xfe, 0xff}
+	second := []byte{0x00, 0x01, 0x02, 0x03, 0xff}
+	var shorts [][]byte
+	shorts = append(shorts, []byte{})
+	for _, a := range lead {
+		shorts = append(shorts, []byte{a})
+		for _, b := range second {
+			shorts = append(shorts, []byte{a, b}, []byte{a, b, byte(g.r.Intn(256))})
+		}
+	}
+	hx := func(b []byte) string {
+		s := hex.EncodeToString(b)
+		if g.r.Intn(3) == 0 {
+			s = strings.ToUpper(s)
+		}
+		return s
+	}
+	one := func(kind string, p func(m *nodev1.GovernanceMessage)) {
+		m := &nodev1.GovernanceMessage{Sequence: g.u64(), Nonce: g.u32(), TargetChainId: g.validTarget()}
+		p(m)
+		g.emit(kind, g.request(m))
+	}
+	for i := 0; i < 256; i++ {
+		b := []byte{byte(i)}
+		one("rashort", func(m *nodev1.GovernanceMessage) {
+			m.Payload = &nodev1.GovernanceMessage_UpdateRefundAddress{UpdateRefundAddress: &nodev1.TokenBridgeUpdateRefundAddress{NewRefundAddress: hx(b)}}
+		})
+	}
+	// a well-formed 33-byte address of each type byte, and type 01/02 addresses cut at every short length
+	for _, ty := range []byte{0, 1, 2, 3, 4, 0xff} {
+		for _, l := range []int{2, 3, 4, 32, 33, 34, 35, 66, 67} {
+			b := g.bytesOf(l)
+			b[0] = ty
+			if ty == 1 || ty == 2 {
+				b[1] = []byte{0, 1, 2, 0xff}[g.r.Intn(4)]
+			}
+			one("rashort", func(m *nodev1.GovernanceMessage) {
+				m.Payload = &nodev1.GovernanceMessage_UpdateRefundAddress{UpdateRefundAddress: &nodev1.TokenBridgeUpdateRefundAddress{NewRefundAddress: hx(b)}}
+			})
+		}
+	}
+	for _, b := range shorts {
+		b := b
+		v32 := hex.EncodeToString(g.bytesOf(32))
+		one("rashort", func(m *nodev1.GovernanceMessage) {
+			m.Payload = &nodev1.GovernanceMessage_UpdateRefundAddress{UpdateRefundAddress: &nodev1.TokenBridgeUpdateRefundAddress{NewRefundAddress: hx(b)}}
+		})
+		one("feeshort", func(m *nodev1.GovernanceMessage) {
+			m.Payload = &nodev1.GovernanceMessage_UpdateMessageFee{UpdateMessageFee: &nodev1.UpdateMessageFee{NewMessageFee: hx(b)}}
+		})
+		one("tfshort", func(m *nodev1.GovernanceMessage) {
+			m.Payload = &nodev1.GovernanceMessage_TransferFee{TransferFee: &nodev1.TransferFee{Amount: hx(b), Recipient: v32}}
+		})
+		one("tfshort", func(m *nodev1.GovernanceMessage) {
+			m.Payload = &nodev1.GovernanceMessage_TransferFee{TransferFee: &nodev1.TransferFee{Amount: v32, Recipient: hx(b)}}
+		})
+		one("cushort", func(m *nodev1.GovernanceMessage) {
+			m.Payload = &nodev1.GovernanceMessage_ContractUpgrade{ContractUpgrade: &nodev1.ContractUpgrade{Payload: hx(b)}}
+		})
+		one("bushort", func(m *nodev1.GovernanceMessage) {
+			m.Payload = &nodev1.GovernanceMessage_BridgeContractUpgrade{BridgeContractUpgrade: &nodev1.BridgeUpgradeContract{Module: "TokenBridge", Payload: hx(b)}}
+		})
+		one("rcshort", func(m *nodev1.GovernanceMessage) {
+			m.Payload = &nodev1.GovernanceMessage_BridgeRegisterChain{BridgeRegisterChain: &nodev1.BridgeRegisterChain{Module: "TokenBridge", ChainId: 2, EmitterAddress: hx(b)}}
+		})
+		one("gsshort", func(m *nodev1.GovernanceMessage) {
+			key := hx(b)
+			if g.r.Intn(2) == 0 {
+				key = "0x" + key
+			}
+			m.TargetChainId = 0
+			m.Payload = &nodev1.GovernanceMessage_GuardianSet{GuardianSet: &nodev1.GuardianSetUpgrade{Guardians: []*nodev1.GuardianSetUpgrade_Guardian{
+				{Pubkey: g.validKey(), Name: "a"}, {Pubkey: key, Name: "short"}}}}
+		})
+	}
+	// full-length fields whose leading bytes run through the same classes
+	for _, a := range lead {
+		b := g.bytesOf(32)
+		b[0] = a
+		b[1] = second[g.r.Intn(len(second))]
+		v := hex.EncodeToString(b)
+		one("feelead", func(m *nodev1.GovernanceMessage) {
+			m.Payload = &nodev1.GovernanceMessage_UpdateMessageFee{UpdateMessageFee: &nodev1.UpdateMessageFee{NewMessageFee: v}}
+		})
+		one("tflead", func(m *nodev1.GovernanceMessage) {
+			m.Payload = &nodev1.GovernanceMessage_TransferFee{TransferFee: &nodev1.TransferFee{Amount: v, Recipient: v}}
+		})
+		one("rclead", func(m *nodev1.GovernanceMessage) {
+			m.Payload = &nodev1.GovernanceMessage_BridgeRegisterChain{BridgeRegisterChain: &nodev1.BridgeRegisterChain{Module: "TokenBridge", ChainId: 2, EmitterAddress: v}}
+		})
+		k := g.bytesOf(20)
+		k[0] = a
+		one("gslead", func(m *nodev1.GovernanceMessage) {
+			m.TargetChainId = 0
+			m.Payload = &nodev1.GovernanceMessage_GuardianSet{GuardianSet: &nodev1.GuardianSetUpgrade{Guardians: []*nodev1.GuardianSetUpgrade_Guardian{
+				{Pubkey: hex.EncodeToString(k), Name: "lead"}, {Pubkey: "0x" + strings.Repeat("0", 38) + "01", Name: "one"}}}}
+		})
+	}
+}
+
+func (g *c15gen) bytesOf(n int) []byte {
+	b := make([]byte, n)
+	g.r.Read(b)
+	return b
 }
 
 func TestVerifC15Gov(t *testing.T) {
@@ -701,7 +1036,23 @@ func TestVerifC15Gov(t *testing.T) {
 	defer f.Close()
 	w := bufio.NewWriterSize(f, 1<<20)
 	defer w.Flush()
-	g := &c15gen{r: rand.New(rand.NewSource(seed)), w: w, t: t, dist: map[string]int{}}
+	g := &c15gen{r: rand.New(rand.NewSource(seed)), w: w, t: t, dist: map[string]int{}, ctorEach: 1}
+	// unix socket paths are limited to ~100 bytes: keep the scratch directory short
+	dir, err := os.MkdirTemp("", "c15")
+	if err != nil {
+		t.Fatal(err)
+	}
+	g.dir = dir
+	defer os.RemoveAll(dir)
+	g.openDBs()
+	defer func() {
+		for _, n := range g.nodes {
+			n.stop()
+		}
+		for _, d := range g.dbs {
+			d.Close()
+		}
+	}()
 	if rp := os.Getenv("VERIF_REPLAY"); rp != "" {
 		g.replay(rp)
 		t.Logf("c15 harness: replayed %d cases", g.n)
@@ -712,7 +1063,12 @@ func TestVerifC15Gov(t *testing.T) {
 	perKind, multi, bigN := 700, 500, 1
 	if tier == "thorough" {
 		perKind, multi, bigN = 15000, 10000, 6
+		g.ctorEach = 4 // the socket round trips dominate: constructor-built instances see every 4th case
 	}
+
+	// 0. very short hex fields (decoded length 0..3, every leading byte class) in every hex-carrying request field:
+	//    a handler that indexes into a decoded field must not be able to panic on a short one
+	g.shortFields()
 
 	// 1. single-message requests, every kind (9 kinds + unset oneof)
 	for kind := 0; kind <= 9; kind++ {
